@@ -4,6 +4,8 @@ import KdVerif.Spec.OsLogFormat
 import KdVerif.Proofs.OsLog
 import KdVerif.Proofs.TraceId
 import KdVerif.Proofs.OsLogShape
+import KdVerif.Proofs.PyIROl
+import KdVerif.Gen.PyIROl
 /-
   C16 — log records decode for every combination of optional fields; the trace-identifier word
   decodes as the exact inverse of its bit packing.
@@ -317,5 +319,130 @@ example : inDomain idTables { ns := 3, type_ := 0x11, hasLargeOffset := false, h
 
 example : segmentShaped exStrings (.dict [("lp", .int 5), ("a", .dict [("a", .int 3), ("p", .int 1)])]) = true := by
   decide
+
+/-! ### translation tie: the hand-written control logic IS the interpreted source
+
+  `tools/gen_pyir_ol.py` translates the SOURCE TEXT of `OsLogEvent.parse_trace_identifier`, `parse_decomposed` and
+  `parse_decomposed_segment` (and of the dataclass `TraceIdentifier`) into the Python-subset IR of `Model/PyIROl` on every
+  run (`Gen/PyIROl.lean`).  `PyIROl.run` is a big-step interpreter over the model's own `PVal` with the model's dict /
+  `in` / subscript / truthiness protocol; a call `cls.parse_decomposed_segment(seg, log_strings)` is answered by
+  interpreting the translated callee.  Primitives (not translated, meaning taken from the reflected tables of
+  `Gen/OsLog`): the construct parse `firehose_tracepoint_id.parse(Int64ul.build(x))` (`toLE` + `parseLayout` over the
+  reflected layout), `EnumClass(x)` (`enumCall` on the reflected class), the contents of the module-level dicts
+  `tracepoint_types` / `tracepoint_flags` (reflected; `module_dicts_as_written` ties them to the dict displays).
+  Everything else of the three methods — which key is optional, which is read through `log_strings`, the order of the
+  reads (hence which exception a malformed value raises first), the `if … elif … else` of the type, the conditional
+  `flags`, the keyword arguments of `TraceIdentifier(…)` — is now read off the source text. -/
+
+/-- **The translated source is the program the refinement lemmas were proved for** (`Spec/PyIROlExpected`, quoting the
+    Python), and the translator met nothing outside the IR's subset.  A change of any of the three methods that is not a
+    mere restyling (renamed locals, `not x in y`, an inlined alias of `segment['p']`, …) makes this false. -/
+theorem source_is_expected_ir : Gen.PyIROl.prog = PyIROl.Expected.prog ∧ Gen.PyIROl.notes = [] := by decide
+
+/-- The reflected tables meet the side conditions of `parse_trace_identifier_ir_eq_model` (`PyIROl.Coherent`): the enum
+    classes the source names are the reflected ones, the namespace class is a plain `Enum` with a member `signpost` whose
+    value is the reflected one, the signpost type class is a flag class, the reflected construct layout yields the leaves
+    the method reads (`Flag`s exactly for the three booleans) and `trace_flags` is a nested struct. -/
+theorem id_tables_coherent : PyIROl.Coherent idTables := by decide
+
+/-- the reflected dict under a module-level name, as (key value, name of the value class) -/
+def reflectedDict (T : IdTables) (name : String) : Option (List (Int × String)) :=
+  (PyIROl.tableOf T name).map fun l => l.map fun p => (p.1, p.2.cls.name)
+
+/-- a dict display as written (key class, key member, value class), its keys resolved in the reflected namespace class -/
+def writtenDict (T : IdTables) (ents : List (String × String × String)) : Option (List (Int × String)) :=
+  ents.mapM fun e =>
+    if e.1 == T.nsEnum.cls.name then (T.nsEnum.cls.members.find? (·.name == e.2.1)).map fun m => (m.value, e.2.2)
+    else none
+
+/-- **The module-level dicts the interpreter reads by reflection are the dict displays of the source text**: the same
+    keys in the same order, each with the class the display names. -/
+theorem module_dicts_as_written :
+    Gen.PyIROl.tables.map (·.1) = ["tracepoint_types", "tracepoint_flags"] ∧
+    ∀ p ∈ Gen.PyIROl.tables, reflectedDict idTables p.1 = writtenDict idTables p.2 := by decide
+
+section ir
+open PyIROl (Val run)
+
+/-- **`parse_decomposed_segment`, interpreted, is `parseSegment`**: for EVERY value `seg` (a dict with any subset of
+    `lp` / `p` / `a`, a list, a string, a number, …) and every string table, the generated method run by the interpreter
+    gives what the hand model gives — the same decoded segment or the same exception (`KeyError` for a missing `w` / `p`
+    or an index outside the table, `TypeError` for a non-dict where a dict is subscripted or an unhashable index, …),
+    raised at the same point of the evaluation order.  No hypothesis: the hand model and the interpreted source agree on
+    malformed input too. -/
+theorem parse_decomposed_segment_ir_eq_model (T : IdTables) (S : Strings) (seg : PVal) :
+    run T S Gen.PyIROl.prog "parse_decomposed_segment" [.pv seg, .table] = parseSegment S seg := by
+  rw [source_is_expected_ir.1]; exact PyIROl.run_segment T S seg
+
+/-- **`parse_decomposed`, interpreted, is `parseDecomposed`**: for every value `dm` and every string table — the call
+    `cls.parse_decomposed_segment(seg, log_strings)` of the comprehension answered by interpreting the generated callee. -/
+theorem parse_decomposed_ir_eq_model (T : IdTables) (S : Strings) (dm : PVal) :
+    run T S Gen.PyIROl.prog "parse_decomposed" [.pv dm, .table] = parseDecomposed S dm := by
+  rw [source_is_expected_ir.1]; exact PyIROl.run_decomposed T S dm
+
+/-- **`parse_trace_identifier`, interpreted, is `parseTraceIdentifier`**: for every value `v` (any integer, negative or
+    wider than 64 bits, or a non-number) the generated method run by the interpreter on the reflected tables gives what
+    the hand model gives — the same `TraceIdentifier` or the same exception (`StreamError` from the construct build /
+    parse, `ValueError` from an enum call — K4 included).  The namespace lookup, the `if … in tracepoint_types … elif …
+    signpost … else`, the conditional `flags` and the constructor's keywords come from the source text. -/
+theorem parse_trace_identifier_ir_eq_model (S : Strings) (v : PVal) :
+    run idTables S Gen.PyIROl.prog "parse_trace_identifier" [.pv v] = parseTraceIdentifier idTables v := by
+  rw [source_is_expected_ir.1]; exact PyIROl.run_traceId S id_tables_coherent v
+
+/-- The same for ANY tables that meet `PyIROl.Coherent` (what the proof uses of the reflected tables is exactly that). -/
+theorem parse_trace_identifier_ir_eq_model_of_coherent (T : IdTables) (hT : PyIROl.Coherent T) (S : Strings) (v : PVal) :
+    run T S Gen.PyIROl.prog "parse_trace_identifier" [.pv v] = parseTraceIdentifier T v := by
+  rw [source_is_expected_ir.1]; exact PyIROl.run_traceId S hT v
+
+/-- **The subject of `segments_in_order` / `segment_total` / `traceid_inverse` is the interpreted source**: the
+    `decomposed` and `traceId` transforms of the key chain, which `decode_subset` applies, are the generated methods. -/
+theorem transforms_rest_on_ir (S : Strings) (v : PVal) :
+    applyTransform idTables S .decomposed v = run idTables S Gen.PyIROl.prog "parse_decomposed" [.pv v, .table] ∧
+    applyTransform idTables S .traceId v = run idTables S Gen.PyIROl.prog "parse_trace_identifier" [.pv v] :=
+  ⟨(parse_decomposed_ir_eq_model idTables S v).symm, (parse_trace_identifier_ir_eq_model S v).symm⟩
+
+end ir
+
+/-! #### non-vacuity: the generated methods on concrete raw values -/
+
+/-- the decomposed message of `exEvent` through the generated `parse_decomposed` (which calls the generated
+    `parse_decomposed_segment`): literal prefix and object representation through the string table, tokens looked up one
+    by one, width / precision copied -/
+example :
+    PyIROl.run idTables exStrings Gen.PyIROl.prog "parse_decomposed"
+      [.pv (.dict [("pc", .int 1), ("s", .int 0),
+        ("seg", .list [.dict [("lp", .int 5), ("p", .dict [("t", .list [.int 12]), ("w", .int 0), ("p", .int 0)]),
+                              ("a", .dict [("c", .int 2), ("or", .int 9)])]])]), .table] =
+    .ok (.dict [("placeholder_count", .int 1), ("state", .int 0),
+      ("segments", .list [.dict [("literal_prefix", .str "kernel"),
+         ("placeholder", .dict [("tokens", .list [.str "com.apple.x"]), ("width", .int 0), ("precision", .int 0)]),
+         ("arg", .dict [("category", .int 2), ("object_representation", .str "hello %d")])]])]) := rfl
+
+/-- malformed segments through the generated `parse_decomposed_segment`: a placeholder without `p` raises KeyError, the
+    list `['p']` passes `'p' in segment` and then raises TypeError at `segment['p']`, a scalar argument of category 1
+    keeps `sc`, and availability 1 suppresses the object representation -/
+example :
+    PyIROl.run idTables exStrings Gen.PyIROl.prog "parse_decomposed_segment"
+      [.pv (.dict [("p", .dict [("w", .int 1)])]), .table] = .error .keyError ∧
+    PyIROl.run idTables exStrings Gen.PyIROl.prog "parse_decomposed_segment"
+      [.pv (.list [.str "p"]), .table] = .error .typeError ∧
+    PyIROl.run idTables exStrings Gen.PyIROl.prog "parse_decomposed_segment"
+      [.pv (.dict [("a", .dict [("a", .int 1), ("c", .int 1), ("sc", .int 4), ("or", .int 9)])]), .table] =
+      .ok (.dict [("arg", .dict [("availability", .int 1), ("category", .int 1), ("scalar_category", .int 4)])]) :=
+  ⟨rfl, rfl, rfl⟩
+
+/-- the generated `parse_trace_identifier` on the word of the non-vacuity example above, on a K4 word (namespace
+    `trace`, flags 0) and on a word that does not fit 64 bits -/
+example :
+    PyIROl.run idTables [] Gen.PyIROl.prog "parse_trace_identifier" [.pv (.int 0x0000002a_1f351004)] =
+      .ok (.obj "TraceIdentifier"
+        [("namespace", .enum "FirehoseTracepointNamespace" "log"), ("type_", .enum "FirehoseTracepointLogType" "error"),
+         ("has_large_offset", .bool true), ("has_unique_pid", .bool true),
+         ("pc_style", .enum "FirehoseTracepointFlagsPcStyle" "shared_cache"), ("has_current_aid", .bool true),
+         ("flags", .flag "FirehoseTracepointLogFlags" 31), ("code", .int 42)]) ∧
+    PyIROl.run idTables [] Gen.PyIROl.prog "parse_trace_identifier" [.pv (.int 0x0000000700000003)] =
+      .error .valueError ∧
+    PyIROl.run idTables [] Gen.PyIROl.prog "parse_trace_identifier" [.pv (.int (2 ^ 64))] = .error .streamError :=
+  ⟨rfl, rfl, rfl⟩
 
 end KdVerif.C16
